@@ -6,6 +6,7 @@ import (
 	"io"
 	"os"
 	"path/filepath"
+	"regexp"
 	"strings"
 )
 
@@ -328,6 +329,8 @@ func applyMut(b []byte, m Mut) []byte {
 	return b
 }
 
+var zipMetaName = regexp.MustCompile(`(?i)(pkg-info|metadata|manifest\.mf|pom\.(properties|xml)|\.json$|\.txt$|\.toml$|\.cfg$|\.plist$)`)
+
 type zent struct {
 	name string
 	body []byte
@@ -396,6 +399,17 @@ func zipMutate(b []byte, m Mut) []byte {
 	i := mod(m.A, len(es))
 	switch m.Op {
 	case "zip":
+		// three times out of four a metadata-like member (the ones extractors parse) is
+		// mutated rather than any member
+		var meta []int
+		for k, e := range es {
+			if zipMetaName.MatchString(e.name) {
+				meta = append(meta, k)
+			}
+		}
+		if len(meta) > 0 && mod(m.A, 4) != 0 {
+			i = meta[mod(m.A/4, len(meta))]
+		}
 		es[i].body = applyMuts(es[i].body, m.Sub)
 	case "zipname":
 		es[i].name = m.S
